@@ -79,6 +79,8 @@ class FacetBasis(AbstractBasis):
         else:
             self.find = mesh.normalize_facets(facets)
 
+        self.side = side
+
         # fix the orientation
         if isinstance(self.find, OrientedBoundary):
             self.tind = self.mesh.f2t[(-1) ** side * self.find.ori - side,
@@ -206,6 +208,7 @@ class FacetBasis(AbstractBasis):
             mapping=self.mapping,
             quadrature=self.quadrature,
             facets=self.find,
+            side=self.side,
         )
 
     def project(self, interp, facets=None, dtype=None):
